@@ -28,7 +28,7 @@ def resolve_permille(ptape, nsteps):
     return out
 
 
-EXC_NAMES = st.sampled_from(["E0", "E1", "E2", "E3", "EF"])  # EF: instances are falsy
+EXC_NAMES = st.sampled_from(["E0", "E1", "E2", "E3", "EF", "CE"])  # EF: instances are falsy; CE: fails WITH a CancelledError instance
 DELAYS = st.sampled_from([0.25, 0.5, 0.75, 1.0])
 
 
